@@ -1090,7 +1090,18 @@ class ListTerm(PreTerm):
         # can't use == as that builds a larger expression
         if not isinstance(other, ListTerm):
             return False
-        return self.value == other.value
+        if len(self.value) != len(other.value):
+            return False
+        for v_self, v_other in zip(self.value, other.value):
+            # elements may be terms: == on a term builds an (always truthy) expression
+            if isinstance(v_self, PreTerm):
+                if not v_self.is_equal(v_other):
+                    return False
+            elif isinstance(v_other, PreTerm) or (type(v_self) is not type(v_other)):
+                return False
+            elif v_self != v_other:
+                return False
+        return True
 
     def act_on(self, arg, *, expr_walker: ExpressionWalker):
         """
